@@ -45,7 +45,8 @@ MkRule(id, phase, links) ==
 MkMarker(name) ==
   [id |-> 0, phase |-> 0, marker |-> name, links |-> <<ActLink(<< >>)>>, status |-> 0, sev |-> 0 - 1, tags |-> << >>, msg |-> ""]
 E(c, k, v) == [c |-> c, k |-> k, v |-> v]
-Dir(d) == [d |-> d, ids |-> << >>, lo |-> 0, hi |-> 0, s |-> "", tgts |-> << >>, acts |-> << >>]
+\* def: the disruptive action of a SecDefaultAction written at the top of the configuration for every phase ("" = none)
+Dir(d) == [d |-> d, ids |-> << >>, lo |-> 0, hi |-> 0, s |-> "", tgts |-> << >>, acts |-> << >>, def |-> ""]
 MkScen(rules, req, engine) == [rules |-> rules, req |-> req, engine |-> engine, dirs |-> << >>]
 
 \* all sequences over S of length 0..n
@@ -370,6 +371,16 @@ CtlActs2 == { <<ACtlRmId(25)>>, <<ACtlRmRange(25, 30)>>, <<ACtlRmRange(22, 27), 
               <<ACtlRmTgt(60, "ARGS_GET", SelAll)>>, <<ACtlRmTgt(60, "ARGS_GET", SelKey(s_a))>> }
 DirReqs2 == {ReqOfEntries(S) : S \in SUBSET {E("ARGS_GET", s_a, s_x), E("ARGS_GET", s_b, s_x), E("ARGS_GET", s_A, s_x), E("ARGS_GET", s_cc, s_1)}}
 Pass1 == <<A("pass")>>
+\* updates under a SecDefaultAction: "block" in an update stands for the disruptive action the default actions carry,
+\* exactly as in a rule written with block.  Every rule of this base set writes its own disruptive action, so
+\* that nothing else is inherited.
+DirBase4 ==
+  << MkRule(10, 1, <<RuleLink(<<TK("ARGS_GET", s_a)>>, << >>, OpLit("streq", s_x), FALSE, <<A("pass")>>)>>),
+     MkRule(30, 2, <<RuleLink(<<TK("ARGS_GET", s_a)>>, << >>, OpLit("streq", s_x), FALSE, <<A("pass")>>)>>),
+     MkRule(40, 2, <<RuleLink(<<TK("ARGS_GET", s_b)>>, << >>, OpLit("streq", s_x), FALSE, <<A("deny")>>)>>) >>
+Directives4 == {[WithIds(Dir("SecRuleUpdateActionById"), z) EXCEPT !.acts = ac, !.def = df] :
+                  z \in {[ids |-> <<10>>, lo |-> 0, hi |-> 0], [ids |-> <<30>>, lo |-> 0, hi |-> 0], [ids |-> <<10, 30>>, lo |-> 0, hi |-> 0], [ids |-> <<40>>, lo |-> 0, hi |-> 0], [ids |-> << >>, lo |-> 10, hi |-> 30]},
+                  ac \in {<<A("block")>>, <<A("pass")>>, <<A("deny")>>}, df \in {"", "deny"}}
 \* a removal followed by an update that names ids, removed ones among them (both tiers): the update reaches the rules
 \* that still exist and no other
 ListIdSets == {z \in DirIdSets : z.ids # << >>}
@@ -382,13 +393,16 @@ DirPicks(two, slice, slices) ==
   [kind : {"dir"}, d1 : SliceOf(Directives, slice, slices), d2 : IF two THEN Directives \cup {Dir("")} ELSE {Dir("")}, ctl : {A("pass")}, ctls : {Pass1}, pos : {0}, rq : DirReqs]
   \cup [kind : {"dir"}, d1 : SliceOf(Removals3, slice, slices), d2 : Updates3, ctl : {A("pass")}, ctls : {Pass1}, pos : {0}, rq : DirReqs3]
   \cup [kind : {"ctl"}, d1 : {Dir("")}, d2 : {Dir("")}, ctl : SliceOf(CtlActs, slice, slices), ctls : {Pass1}, pos : {0, 2}, rq : DirReqs]
+  \cup [kind : {"dir4"}, d1 : SliceOf(Directives4, slice, slices), d2 : {Dir("")}, ctl : {A("pass")}, ctls : {Pass1}, pos : {0}, rq : DirReqs3]
   \cup [kind : {"dir2"}, d1 : SliceOf(Directives2, slice, slices), d2 : {Dir("")}, ctl : {A("pass")}, ctls : {Pass1}, pos : {0}, rq : DirReqs2]
   \cup [kind : {"ctl2"}, d1 : {Dir("")}, d2 : {Dir("")}, ctl : {A("pass")}, ctls : SliceOf(CtlActs2, slice, slices), pos : {0}, rq : DirReqs2]
 \* the ctl rule fires iff the request carries ARGS_GET c
 CtlRule(act) == MkRule(5, 1, <<RuleLink(<<TK("ARGS_GET", s_cc)>>, << >>, Op("unconditionalMatch", << >>, FALSE), FALSE, <<act>>)>>)
 CtlRule2(acts) == MkRule(5, 1, <<RuleLink(<<TK("ARGS_GET", s_cc)>>, << >>, Op("unconditionalMatch", << >>, FALSE), FALSE, acts)>>)
 DirScen(pk) ==
-  IF pk.kind = "dir2"
+  IF pk.kind = "dir4"
+    THEN [MkScen(DirBase4, pk.rq, "On") EXCEPT !.dirs = <<pk.d1>>]
+  ELSE IF pk.kind = "dir2"
     THEN [MkScen(DirBase2, pk.rq, "On") EXCEPT !.dirs = <<pk.d1>>]
   ELSE IF pk.kind = "ctl2"
     THEN MkScen(<<CtlRule2(pk.ctls)>> \o DirBase2, pk.rq, "On")
